@@ -48,70 +48,115 @@ def expectedInitSequenceAccesses : List String :=
 def expectedAckAccesses : List String :=
   ["acknowledgedSeq.Store(seq)", "metaPage.PutUint64(uint64(seq), queueAcknowledgedSeqOffset)"]
 
+/-- GC: its two early returns, where each local comes from (the truncation bound `dataPageID`
+is the data page id stored in the index item of the acknowledged sequence read at the top —
+never the live write cursor), and its complete call sequence (no lock is taken). -/
+def expectedGcConds : List String := ["ackSeq < 0", "!ok"]
+def expectedGcAssigns : List String :=
+  ["ackSeq := q.AcknowledgedSeq()", "indexPageID := ackSeq / indexItemsPerPage",
+   "indexPage, ok := q.indexPageFct.GetPage(indexPageID)",
+   "indexOffset := int((ackSeq % indexItemsPerPage) * indexItemLength)",
+   "dataPageID := int64(indexPage.ReadUint64(indexOffset + queueDataPageIndexOffset))"]
+def expectedGcCallSeq : List String :=
+  ["q.AcknowledgedSeq", "indexPageFct.GetPage", "int", "indexPage.ReadUint64", "int64",
+   "dataPageFct.TruncatePages", "indexPageFct.TruncatePages"]
+
+/-- alloc: the next page id lives in a local until AcquirePage has succeeded -/
+def expectedAllocConds : List String := ["q.messageOffset + dataLen > dataPageSize", "err != nil", "err != nil"]
+def expectedAllocAssigns : List String :=
+  ["err := q.dataPage.Sync()", "nextDataPageIndex := q.dataPageIndex + 1",
+   "dataPage, err := q.dataPageFct.AcquirePage(nextDataPageIndex)", "q.dataPage = dataPage",
+   "q.dataPageIndex = nextDataPageIndex", "q.messageOffset = 0", "messageOffset := q.messageOffset",
+   "q.messageOffset += dataLen"]
+
 def expectedWriteBytesBody : List String := ["copy(mp.mappedBytes[offset:], data)"]
 
 /-! ### appended sequence along a history -/
 
-/-- the operation leaves one more message in the queue: a Put that is not rejected, or a
-crashed Put all of whose stores were done -/
-def Op.completes : Op → Bool
+/-- the operation, applied in state `st`, leaves one more message in the queue: a Put that is
+not rejected, a crashed Put all of whose stores were done, a Put under an AcquirePage fault
+that needed no roll-over -/
+def Op.completesIn (st : St) : Op → Bool
   | .put m => decide (m.len ≤ dataPageSize)
   | .crashPut m k => decide (m.len ≤ dataPageSize) && decide (m.len + 4 ≤ k)
+  | .putFail m => decide (m.len ≤ dataPageSize) && decide (st.q.messageOffset + m.len ≤ dataPageSize)
   | _ => false
+
+/-- number of completed appends along a history -/
+def appendCount (st : St) : List Op → Nat
+  | [] => 0
+  | op :: ops => (if op.completesIn st then 1 else 0) + appendCount (step st op) ops
 
 theorem gc_q (st : St) : (gc st).q = st.q := by
   unfold gc; split
   · rfl
   · dsimp only; split <;> rfl
 
+theorem put_appended {st : St} (I : Inv st) (m : Msg) :
+    (put st m).1.q.appended = st.q.appended + (if m.len ≤ dataPageSize then 1 else 0) := by
+  by_cases hl : m.len ≤ dataPageSize
+  · obtain ⟨_, _, h, _⟩ := put_inv I m hl
+    simp [hl, h]
+  · unfold put; rw [if_pos (by omega)]
+    simp [hl]
+
 theorem step_appended {st : St} (I : Inv st) (op : Op) :
-    (step st op).q.appended = st.q.appended + (if op.completes then 1 else 0) := by
+    (step st op).q.appended = st.q.appended + (if op.completesIn st then 1 else 0) := by
   cases op with
   | put m =>
-    by_cases hl : m.len ≤ dataPageSize
-    · obtain ⟨_, _, h, _⟩ := put_inv I m hl
-      show (put st m).1.q.appended = _
-      simp [Op.completes, hl, h]
-    · show (put st m).1.q.appended = _
-      unfold put; rw [if_pos (by omega)]
-      simp [Op.completes, hl]
-  | get s => simp [step, Op.completes]
+    show (put st m).1.q.appended = _
+    rw [put_appended I]; simp [Op.completesIn]
+  | putFail m =>
+    show (putF st m).1.q.appended = _
+    rw [putF_eq]
+    split
+    · rename_i h
+      simp only [Op.completesIn]
+      rcases h with h | h
+      · simp [show ¬ m.len ≤ dataPageSize by omega]
+      · simp [show ¬ st.q.messageOffset + m.len ≤ dataPageSize by omega]
+    · rename_i h
+      rw [put_appended I]
+      simp only [Op.completesIn]
+      simp [show m.len ≤ dataPageSize by omega, show st.q.messageOffset + m.len ≤ dataPageSize by omega]
+  | get s => simp [step, Op.completesIn]
   | ack s =>
     obtain ⟨_, _, _, h, _⟩ := ack_inv I.core s
     show (ack st s).q.appended = _
-    simp [Op.completes, h]
-  | gc => show (gc st).q.appended = _; rw [gc_q]; simp [Op.completes]
-  | reopen => show (openQ st.mem).q.appended = _; rw [reopen_eq I]; simp [Op.completes]
+    simp [Op.completesIn, h]
+  | gc => show (gc st).q.appended = _; rw [gc_q]; simp [Op.completesIn]
+  | reopen => show (openQ st.mem).q.appended = _; rw [reopen_eq I]; simp [Op.completesIn]
   | crashPut m k =>
     show (crashPut st m k).q.appended = _
     unfold crashPut
     split
     · rename_i hl
-      rw [reopen_eq I]; simp [Op.completes]; omega
+      rw [reopen_eq I]; simp [Op.completesIn]; omega
     · rename_i hl
       have hl : m.len ≤ dataPageSize := by omega
       by_cases hk : k < m.len + 4
       · have := reopen_eq (putStores_frame I m k hk).1
         dsimp only at this
-        rw [this]; simp [Op.completes]; omega
+        rw [this]; simp [Op.completesIn]; omega
       · have he : putStores (alloc st.mem st.q m.len) m k = (put st m).1.mem := by
           rw [put_eq st m hl]
           unfold putStores
           rw [if_neg (by omega), persistStores_ge4 _ _ _ _ _ _ (by omega)]
         obtain ⟨I', _, h, _⟩ := put_inv I m hl
         rw [he, reopen_eq I', h]
-        simp [Op.completes, hl]; omega
+        simp [Op.completesIn, hl]; omega
 
 theorem run_appended {st : St} (I : Inv st) (ops : List Op) :
-    (run st ops).q.appended = st.q.appended + ((ops.filter Op.completes).length : Int) := by
+    (run st ops).q.appended = st.q.appended + (appendCount st ops : Int) := by
   induction ops generalizing st with
-  | nil => simp [run]
+  | nil => simp [run, appendCount]
   | cons op ops ih =>
     have h1 := step_appended I op
     have h2 := ih (step_inv I op).1
     show (run (step st op) ops).q.appended = _
     rw [h2, h1]
-    by_cases hc : op.completes <;> simp [List.filter, hc] <;> omega
+    simp only [appendCount]
+    by_cases hc : op.completesIn st <;> simp [hc] <;> omega
 
 /-! ### witness schedules -/
 
@@ -139,6 +184,15 @@ def gEv : Ev := .persist 0
 /-- sequence 1 is acknowledged; GC truncates every data page below sequence 1's page, i.e.
 page 0, which holds the unacknowledged sequence 2 -/
 def gPost : List Ev := [.ack 1, .gc]
+
+/-- GC overlapped by two Puts, the second rolling the data page (everything acknowledged when
+GC reads the acknowledged sequence): X fills page 0 up to 20 bytes and is acknowledged; GC
+reads ack = 0; A (8 bytes) still fits page 0; B' (64 bytes) rolls to page 1; GC finishes. -/
+def msgB64 : Msg := Msg.gen 3 64
+def oPre : List Ev :=
+  [.alloc 9 (Msg.gen 0 134217708), .ack 0, .gcSnap]
+def oEv : Ev := .alloc 0 msgA
+def oPost : List Ev := [.alloc 1 msgB64, .gcRead, .gcTruncData, .gcTruncIndex]
 
 /-- Boolean check that a schedule `pre ++ [e] ++ post` violates the property -/
 def violates (shape : Shape) (pre : List Ev) (e : Ev) (post : List Ev) : Bool :=
